@@ -360,6 +360,7 @@ class World(object):
             'unhexlify': NativeFunc('unhexlify', _unhexlify),
             'Error': self.bclasses['binascii.Error'],
         })
+        mod('contextlib', {'contextmanager': NativeFunc('contextlib.contextmanager', _contextmanager)})
         mod('random', {
             'choice': NativeFunc('random.choice', _random_choice),
             'randint': NativeFunc('random.randint', lambda ex, a, k: ex.fresh_int('randint', a[0], a[1])),
@@ -702,6 +703,14 @@ def _deque(ex, a, k):
 def _defaultdict(ex, a, k):
     d = SDict(a[0] if a else None)
     return d
+
+
+def _contextmanager(ex, a, k):
+    f = a[0]
+    if not isinstance(f, FuncVal):
+        raise Unsupported('contextlib.contextmanager on %r' % (f,))
+    f.is_ctxgen = True       # calling it yields a CtxGenInst; st_With runs the body inline
+    return f
 
 
 def _hexlify(ex, a, k):
